@@ -25,6 +25,12 @@ func RequestUsingReaderWriter(ctx context.Context, logger *zap.Logger, reader pr
 		sharedEphemeral: &[cryptoutil.KeySize]byte{},
 	}
 
+	// nobody holds the private half of a key of small order: whoever answers
+	// would pass as the account we want to reach
+	if err := checkAccountKeyOrder(peerAccountID); err != nil {
+		return errcode.ErrCode_ErrInvalidInput.Wrap(err)
+	}
+
 	// Handshake steps on requester side (see comments below)
 	if err := hc.sendRequesterHello(); err != nil {
 		return errcode.ErrCode_ErrHandshakeRequesterHello.Wrap(err)
